@@ -271,7 +271,7 @@ def ss_case(rep, drv, rng, th):
 				 py={'avg': avg, 'se': se, 'analytical': ana}, oracle=bool(bad), theorem=THEOREM if not diffs else None)
 
 
-def serial_case(rep, drv, rng, th, no_transit=None, overstock=None):
+def serial_case(rep, drv, rng, th, no_transit=None, overstock=None, stale=None):
 	from stockpyl import ssm_serial
 	from stockpyl.supply_chain_network import echelon_to_local_base_stock_levels
 	import props.c07 as c07
@@ -289,6 +289,9 @@ def serial_case(rep, drv, rng, th, no_transit=None, overstock=None):
 	lam = rng.choice([2, 5])
 	ds = make_ds('P', lam)
 	kw = dict(num_nodes=N, echelon_holding_cost={j + 1: hech[j] for j in range(N)}, lead_time={j + 1: Ls[j] for j in range(N)}, stockout_cost=p, demand_source=ds)
+	if stale if stale is not None else (N + sum(Ls) + int(p)) % 2 == 0:
+		# moments passed next to the demand source are documented as ignored (an instance read off a network generically carries both)
+		kw.update(demand_mean=float(lam) + 4, demand_standard_deviation=0.5); rep.count('serial:stale-moments-next-to-the-demand-source')
 	T = 12000 if th else 4000
 	seed = rng.randrange(1, 10 ** 6)
 	case = {'kind': 'serial', 'N': N, 'h_local': hloc, 'L': Ls, 'order_lead_times': olts, 'p': p, 'lambda': lam, 'T': T, 'seed': seed}
@@ -478,7 +481,7 @@ def run(rep, drv):
 	for k in range(40 if th else 8):
 		ss_case(rep, drv, rng, th)
 	for k in range(12 if th else 4):
-		serial_case(rep, drv, rng, th, no_transit=(k % 2 == 1), overstock=(k % 4 == 0))
+		serial_case(rep, drv, rng, th, no_transit=(k % 2 == 1), overstock=(k % 4 == 0), stale=(k % 2 == 0))
 
 
 def replay(rep, drv, doc):
